@@ -36,7 +36,7 @@ VARIABLES sol,      \* "none" | "in" (answer to an IN token owed/allowed) | "hs"
           tok,      \* "none" | "out" | "setup": standing OUT/SETUP token addressed to this device
           pk,       \* device packets at the PHY boundary since the last transaction record: <<[pid, payload]>>
           bus       \* bus-level state: [spd |-> "fs"|"hs" (negotiated speed), susp |-> suspended, att |-> VBUS present and
-                    \*  connected, fresh |-> a bus reset happened and no configuration was set since (data toggles unspecified),
+                    \*  connected, fresh |-> a bus reset happened (data toggles unspecified from then on),
                     \*  needrst |-> the host must reset the bus before the next transaction (after re-attachment)]
 
 wvars == <<sol, tok, pk, bus>>
@@ -231,11 +231,9 @@ BusEvent(r) ==
                 [] OTHER -> bus
     /\ UNCHANGED <<sol, tok, pk, vars>>
 
-\* bulk traffic for the device itself between a bus reset and the next SET_CONFIGURATION is outside the Env (toggles)
-BulkEnv(a) == IF bus.fresh /\ a = addr THEN "env_bulk_traffic_before_configuration_after_reset" ELSE "ok"
-\* a completed SET_CONFIGURATION ends the `fresh` period
-AfterCtl(a, req, outcome) ==
-    IF a = addr /\ req.type = 0 /\ req.request = 9 /\ ~req.dirin /\ outcome = "ok" THEN [bus EXCEPT !.fresh = FALSE] ELSE bus
+\* bulk traffic for the device itself after a bus reset is outside the Env of this specification: what a reset does to
+\* the data toggles / buffered data is not part of C08 or C57 (tokens for other addresses stay inside: silence required)
+BulkEnv(a) == IF bus.fresh /\ a = addr THEN "env_bulk_traffic_for_the_device_after_a_bus_reset" ELSE "ok"
 
 -----------------------------------------------------------------------------
 (* Prop (state invariants of the composition) *)
